@@ -21,7 +21,11 @@ def run_fault_shard(exe, jobs_path, out_path, prog_path, njobs):
         except subprocess.TimeoutExpired:
             rc, err = -999, "shard timeout (an operation does not terminate)"
         if os.path.exists(out_path):
-            lines += [json.loads(l) for l in open(out_path) if l.strip()]
+            for l in open(out_path):
+                try:
+                    lines.append(json.loads(l))
+                except ValueError:
+                    pass          # line cut by the death of the process
         if rc == 0:
             break
         prog = open(prog_path).read().split() if os.path.exists(prog_path) else ["?", "?"]
